@@ -19,6 +19,7 @@ Stmt     = ["yield", Struct]
          | ["read", name]
          | ["ret", mode]                     early return / result()
          | ["orphan", Leaf]                  create a future, never yield it
+         | ["syncitem", site, kind, key]     item = request(); item.value()  (flushes its batch directly)
          | ["probe", what]
 Struct   = ["leaf", Leaf] | ["tuple", [Struct]] | ["list", [Struct]]
          | ["dict", [[key, Struct]...]]
@@ -185,6 +186,9 @@ def exec_block(rt, fr, block):
         elif op == "sync":
             v = rt.sync_call(fr, st)
             fr.received.append(("sync", v))
+        elif op == "syncitem":
+            v = rt.sync_item(fr, st)
+            fr.received.append(("syncitem", v))
         elif op == "raise":
             raise rt.make_exc(fr, st[1], st[2])
         elif op == "try":
